@@ -211,6 +211,38 @@ func TestCheck(t *testing.T) {
 		}
 	}
 	rec(nil)
+	// one-key deep histories: every sequence of length 6..D over {Set a ttl1, Set a ttl3, Get a, Cleanup, Advance 2s} that starts
+	// with a Set and ends with a Get (several cleanups and re-Sets of the same key in one history: state that a cleanup
+	// keeps between passes, entries re-created after a sweep)
+	deep := []op{alphabet[0], alphabet[1], alphabet[4], alphabet[7], alphabet[10]}
+	nDeep := 0
+	for n := 6; n <= ev.Pick(7, 8); n++ {
+		idx := make([]int, n-2)
+		for {
+			for _, first := range deep[:2] {
+				ops := []op{first}
+				for _, i := range idx {
+					ops = append(ops, deep[i])
+				}
+				ops = append(ops, deep[2])
+				for _, m := range []int{0, 2} {
+					runSeq(m, ops)
+					nDeep++
+				}
+			}
+			j := 0
+			for ; j < len(idx); j++ {
+				if idx[j]++; idx[j] < len(deep) {
+					break
+				}
+				idx[j] = 0
+			}
+			if j == len(idx) {
+				break
+			}
+		}
+	}
+	e.Set("one_key_deep_histories", nDeep)
 	// longer seeded-random sequences
 	for i := 0; i < ev.Pick(1500, 30000); i++ {
 		n := 6 + rng.Intn(10)
@@ -307,7 +339,7 @@ func TestCheck(t *testing.T) {
 	e.Set("evaluations", int64(nSeq+cb.Len()+sb.Len()+rb.Len()+db.Len()))
 	e.Set("traces_validated_against_impl", int64(nSeq+cb.Len()+sb.Len()+rb.Len()+db.Len()))
 	e.Set("concurrent_histories_with_overlap", int64(overlaps))
-	e.Set("rule", "sequential: every sequence over a 10-letter alphabet (Set a ttl1/ttl3, Set b ttl2, Get a/b, Delete a, Cleanup, Reset, Advance 1s/2s) up to length L that starts with Set and ends with Get, for MaxTTL in {0,2}, plus seeded random sequences of length 6-15; concurrent: 3 goroutines x 4 random ops with the periodic cleaner on, call/return order recorded under one mutex; stop: Stop raced against a cleaner parked inside Cleanup. non-trivial (sequential) = contains a Set and a Get; distinct by (MaxTTL, op sequence)")
+	e.Set("rule", "sequential: every sequence over a 10-letter alphabet (Set a ttl1/ttl3, Set b ttl2, Get a/b, Delete a, Cleanup, Reset, Advance 1s/2s) up to length L that starts with Set and ends with Get, for MaxTTL in {0,2}, plus every one-key sequence of length 6..7(8) over {Set a ttl1/ttl3, Get a, Cleanup, Advance 2s}, plus seeded random sequences of length 6-15; concurrent: 3 goroutines x 4 random ops with the periodic cleaner on, call/return order recorded under one mutex; stop: Stop raced against a cleaner parked inside Cleanup. non-trivial (sequential) = contains a Set and a Get; distinct by (MaxTTL, op sequence)")
 
 	selfTest(e)
 }
